@@ -24,7 +24,7 @@ def consts(peers=("p1", "p2"), acts=(), rich=(), maxval=1, devs=(), ghost=0, tin
 
 def mc_run(c, maxlen, prefix, timeout, workers=NCPU):
     cfg = cfg_text("Spec", dict(c, MaxLen=maxlen), subst={"Prefix": prefix}, view="View",
-                   invariants=["InvTypeOK", "InvOneBinding", "InvWellFormed", "InvNoDangling"], properties=["StepProperty"])
+                   invariants=["InvTypeOK", "InvOneBinding", "InvWellFormed", "InvNoDangling"], properties=["StepProperty", "RegistryRefines"])
     code, out = run_tlc("CoreMC.tla", cfg, timeout=timeout, workers=workers, heap="8g")
     st = tlc_stats(out)
     if not tlc_ok(code, out) or not st:
@@ -54,6 +54,9 @@ def gen_sim(c, maxlen, prefix, num, seed, timeout):
     return beh
 
 
+SUITE_TRACE_ON = False   # set by execute() for the properties that have an event kind in suite.KINDS
+
+
 def replay_and_validate(sc, topo, behs, c, checked, tag, timeout=900):
     """behs: list of JSON strings (one behaviour each). Returns (bad, devs, lines, nsteps, tracefiles)."""
     open(sc.path("topo.json"), "w").write(topo)
@@ -65,8 +68,15 @@ def replay_and_validate(sc, topo, behs, c, checked, tag, timeout=900):
         files.append((bf, sc.path("%s_trace_%d.ndjson" % (tag, i))))
 
     def rep(f):
-        return json.loads(run_harness(["core-replay", "-topo", sc.path("topo.json"), "-in", f[0], "-out", f[1]], timeout=timeout))
+        # (the state tracer of spine/verif_trace.go writes the registries as they are at their hook points: suite.py)
+        return json.loads(run_harness(["core-replay", "-topo", sc.path("topo.json"), "-in", f[0], "-out", f[1]], timeout=timeout,
+                                      env={"VERIF_SUITE_TRACE": f[1] + ".st"} if SUITE_TRACE_ON and files.index(f) % 4 == 0 else None))
     stats = pmap(rep, files)
+    if SUITE_TRACE_ON:
+        import glob, suite
+        for f in files:
+            for stf in glob.glob(f[1] + ".st.*"):
+                suite.HARNESS_TRACES.append((stf, f[0]))
     nsteps = sum(s["steps"] for s in stats)
     log("replayed %d steps on the code" % nsteps)
     cfg = cfg_text("TraceSpec", dict(c, Checked=set(checked)), invariants=["Final"], postcondition="Done")
@@ -224,6 +234,10 @@ def execute(prop, tier, seed, P, replay=None, clear=True):
     t0 = time.time()
     build_harness()
     sc = Scratch()
+    global SUITE_TRACE_ON
+    import suite
+    SUITE_TRACE_ON = prop in suite.KINDS and not replay
+    del suite.HARNESS_TRACES[:]
     try:
         known = open_deviations(prop)
         c_trace = consts(peers=P.get("peers", ("p1", "p2")), rich=ALL_RICH, maxval=3, devs=known.keys())
@@ -359,6 +373,21 @@ def execute(prop, tier, seed, P, replay=None, clear=True):
             viol += pr["viol"]
             cov["pair_probes"] = pr["cov"]
             cov["traces_validated_against_impl"] += pr["cov"]["pair_probes"]
+        if prop == "C09" and not replay:
+            # the invariant for every number of peers, features and steps: TLAPS proof of spec/RegistryProof.tla, which the
+            # registry component of SpineCore refines (RegistryRefines, checked by TLC in the runs above)
+            cov["unbounded_proof"] = run_tlapm("RegistryProof.tla")
+        if P.get("write_results"):
+            import listdata
+            wr = listdata.write_results_part(prop, tier, seed, sc)
+            viol += wr["viol"]
+            cov["write_results_data_layer"] = wr["cov"]
+            cov["traces_validated_against_impl"] += wr["cov"]["cases"]
+        import suite
+        if prop in suite.KINDS and not replay:
+            sr = suite.execute(prop, sc, suite.HARNESS_TRACES)
+            viol += sr["viol"]
+            cov["suite_trace"] = sr["cov"]
         if P.get("race"):
             import races
             rr = races.execute(prop, tier, sc, topo)
